@@ -36,6 +36,13 @@ SelfLists == UNION { { [i \in DOMAIN ps |-> P(i, ts[i], ps[i], OriOf(ps[i]))] : 
                      : ps \in SeqsOf(PoolB, 2, 3) }
 SelfConfigs == { Cfg(l, l, kk, <<1, 1>>) : l \in SelfLists, kk \in 1..3 }
 
+\* numbering that restarts in every tomogram: subtomogram numbers repeat across tomograms and are shared by both lists
+\* (a number identifies a particle only together with its tomogram)
+SidRestart(l) == [i \in DOMAIN l |-> [l[i] EXCEPT !.sid = Cardinality({ j \in 1..i : l[j].t = l[i].t })]]
+RestartConfigs == { Cfg(SidRestart(la), SidRestart(lb), kp[1], kp[2]) :
+                       la \in { l \in ListsA : Len(l) = 2 }, lb \in { l \in ListsB : Len(l) = 3 },
+                       kp \in { <<2, <<1, 1>>>>, <<3, <<3, 2>>>> } }
+
 \* motion scope: two queries, three candidates in two tomograms, every cube rotation, two translations, each tomogram
 MotionBase == { Cfg(<<P(1, 1, <<8, 16, 24>>, ra), P(2, 2, <<44, -12, 20>>, Ry1)>>,
                     <<P(11, t1, <<24, 16, 40>>, Rx1), P(12, 1, <<-16, 40, 24>>, Mul(Rz1, Rx1)), P(13, 2, <<52, 4, 12>>, rb),
